@@ -318,30 +318,61 @@ def _orient(a, b, c):
 
 
 def _zv(x):
-    return x.v if isinstance(x, SymReal) else z3.RealVal(str(x))
+    if isinstance(x, SymReal):
+        return x.v
+    import fractions
+    return fractions.Fraction(x)
+
+
+def _and(*xs):
+    if any(isinstance(x, z3.ExprRef) for x in xs):
+        return z3.And(*[x if isinstance(x, z3.ExprRef) else z3.BoolVal(bool(x)) for x in xs])
+    return all(xs)
+
+
+def _or(*xs):
+    if any(isinstance(x, z3.ExprRef) for x in xs):
+        return z3.Or(*[x if isinstance(x, z3.ExprRef) else z3.BoolVal(bool(x)) for x in xs])
+    return any(xs)
 
 
 def validity_regions(coords):
-    """(surely_valid, surely_invalid) z3 conditions over a ring of symbolic corners.
+    """(surely_valid, surely_invalid) conditions over a ring of corners (z3 terms for
+    symbolic corners, plain booleans for numbers).
     surely_valid: strictly convex, consistently oriented.
     surely_invalid: triangle with collinear corners; quad whose opposite edges properly
     cross (bow-tie) or whose four corner turns are all zero (no area)."""
     pts = [(_zv(x), _zv(y)) for x, y in coords]
     n = len(pts)
     turns = [_orient(pts[k], pts[(k + 1) % n], pts[(k + 2) % n]) for k in range(n)]
-    valid = z3.Or(z3.And(*[t > 0 for t in turns]), z3.And(*[t < 0 for t in turns]))
+    valid = _or(_and(*[t > 0 for t in turns]), _and(*[t < 0 for t in turns]))
     if n == 3:
         invalid = turns[0] == 0
     elif n == 4:
         def cross(a, b, c, d):
             o1, o2, o3, o4 = _orient(a, b, c), _orient(a, b, d), _orient(c, d, a), _orient(c, d, b)
-            return z3.And(z3.Or(z3.And(o1 > 0, o2 < 0), z3.And(o1 < 0, o2 > 0)),
-                          z3.Or(z3.And(o3 > 0, o4 < 0), z3.And(o3 < 0, o4 > 0)))
-        invalid = z3.Or(cross(pts[0], pts[1], pts[2], pts[3]), cross(pts[1], pts[2], pts[3], pts[0]),
-                        z3.And(*[t == 0 for t in turns]))
+            return _and(_or(_and(o1 > 0, o2 < 0), _and(o1 < 0, o2 > 0)),
+                        _or(_and(o3 > 0, o4 < 0), _and(o3 < 0, o4 > 0)))
+        invalid = _or(cross(pts[0], pts[1], pts[2], pts[3]), cross(pts[1], pts[2], pts[3], pts[0]),
+                      _and(*[t == 0 for t in turns]))
     else:
-        invalid = z3.BoolVal(False)
+        invalid = False
+    if isinstance(valid, z3.ExprRef) and not isinstance(invalid, z3.ExprRef):
+        invalid = z3.BoolVal(bool(invalid))
     return valid, invalid
+
+
+def _same_term(a, b):
+    if isinstance(a, SymReal) and isinstance(b, SymReal):
+        return z3.eq(z3.simplify(a.v), z3.simplify(b.v))
+    return False
+
+
+def _is_rect_pattern(coords):
+    if len(coords) != 4:
+        return False
+    (x0, y0), (x1, y1), (x2, y2), (x3, y3) = coords
+    return (_same_term(y0, y1) and _same_term(x1, x2) and _same_term(y2, y3) and _same_term(x3, x0))
 
 
 def make_is_valid(mode):
@@ -357,8 +388,15 @@ def make_is_valid(mode):
             elif isinstance(p, geo.SymPoly):
                 if mode == 'all':
                     out.reshape(-1)[k] = True
+                elif mode == 'rect' and _is_rect_pattern(p.coords):
+                    # axis-aligned rectangle (x0,y0),(x1,y0),(x1,y1),(x0,y1): every corner turn is
+                    # +-(x1-x0)*(y1-y0), so GEOS validity is exactly "both sides non-zero" (linear)
+                    c = cur_ctx()
+                    (x0, y0), (x1, _), (_, y1), _ = p.coords
+                    out.reshape(-1)[k] = c.decide(z3.And(_zv(x0) != _zv(x1), _zv(y0) != _zv(y1)))
                 else:
                     c = cur_ctx()
+                    c.nonlinear = True
                     valid, invalid = validity_regions(p.coords)
                     if c.decide(valid):
                         out.reshape(-1)[k] = True
@@ -440,9 +478,7 @@ def conformance_validity(limit=3):
     s = z3.Solver()
     for k in (3, 4):
         for ring in itertools.product(pts, repeat=k):
-            valid, invalid = validity_regions([(float(x), float(y)) for x, y in ring])
-            v = z3.is_true(z3.simplify(valid))
-            iv = z3.is_true(z3.simplify(invalid))
+            v, iv = validity_regions(ring)
             if not (v or iv):
                 continue
             real = bool(shapely.is_valid(shapely.Polygon(ring))) if len(set(ring)) >= 1 else False
